@@ -28,8 +28,11 @@ type c20Lim struct {
 
 var c20Lims = []c20Lim{{"1ps-b1", time.Second, 1}, {"1ps-b3", time.Second, 3}, {"10ps-b2", 100 * time.Millisecond, 2}, {"0.1ps-b1", 10 * time.Second, 1}}
 
+// thorough tier only
+var c20LimsMore = []c20Lim{{"2ps-b5", 500 * time.Millisecond, 5}, {"1ps-b2", time.Second, 2}}
+
 func c20LimByName(n string) c20Lim {
-	for _, l := range c20Lims {
+	for _, l := range append(append([]c20Lim(nil), c20Lims...), c20LimsMore...) {
 		if l.name == n {
 			return l
 		}
@@ -101,6 +104,9 @@ func runC20(t *testing.T, c explore.Case) (res explore.Result) {
 			if i == 1 {
 				rl = dht.QueryRateLimiting{} // the second query always uses the defaults
 			}
+			if i == 2 {
+				rl = dht.QueryRateLimiting{WaitOnRetries: true} // the third one is a maintenance-style ping
+			}
 			rlOf[dest.String()] = rl
 			qctx := ctx
 			if p["dl"] == "short" {
@@ -121,6 +127,10 @@ func runC20(t *testing.T, c explore.Case) (res explore.Result) {
 			gap = lim.every / 2
 		case "full":
 			gap = lim.every
+		case "quarter":
+			gap = lim.every / 4
+		case "double":
+			gap = 2 * lim.every
 		}
 		type arrival struct {
 			at  time.Duration
@@ -278,7 +288,7 @@ var c20States = map[string]struct{}{}
 func TestC20(t *testing.T) {
 	w := explore.NewWorker("C20")
 	defer w.Finish()
-	w.SetRule("limiter (rate, burst) in {(1/s,1),(1/s,3),(10/s,2),(0.1/s,1)} x WaitToReply on/off x inbound floods of 0..6 queries of mixed kinds (ping, find_node, unknown method => error path, missing arguments => error path, get) from 1 or 3 sources arriving all at once / spaced half a token interval / spaced one token interval x 0..2 concurrent outbound queries to silent peers with rate-limiting options {default, NotFirst, NotAny, WaitOnRetries, NoWaitFirst} x NumTries {1,3} x context {no deadline, a deadline shorter than the wait for the next token} x scripted socket write error on write {none,1,2} (token refund path); the clock advances in quarter-token ticks to a horizon; oracle over the written-datagram timeline: every window of rate-limited datagrams (all r/e, every q send not exempted by its options) holds at most burst + rate x length; replies are immediate or never unless the node waits, then every response eventually leaves; no reply is sent twice; outbound queries return")
+	w.SetRule("limiter (rate, burst) in {(1/s,1),(1/s,3),(10/s,2),(0.1/s,1)} x WaitToReply on/off x inbound floods of 0..6 (thorough: 0..12) queries of mixed kinds (ping, find_node, unknown method => error path, missing arguments => error path, get) from 1 or 3 sources arriving all at once / spaced half a token interval / spaced one token interval (thorough: also a quarter and two intervals, two more limiters (2/s,5) (1/s,2), a third outbound query, NumTries 2, write errors on writes 3 and 4) x 0..2 concurrent outbound queries to silent peers with rate-limiting options {default, NotFirst, NotAny, WaitOnRetries, NoWaitFirst} x NumTries {1,3} x context {no deadline, a deadline shorter than the wait for the next token} x scripted socket write error on write {none,1,2} (token refund path); the clock advances in quarter-token ticks to a horizon; oracle over the written-datagram timeline: every window of rate-limited datagrams (all r/e, every q send not exempted by its options) holds at most burst + rate x length; replies are immediate or never unless the node waits, then every response eventually leaves; no reply is sent twice; outbound queries return")
 	idx := 0
 	defer func() { w.AddStates(len(c20States)) }()
 	run := func(h []string) {
@@ -300,31 +310,41 @@ func TestC20(t *testing.T) {
 		c20States[r.Outcome+"|"+h[0]+h[1]] = struct{}{}
 	}
 	ns := []int{0, 1, 2, 4, 6}
+	lims := c20Lims
+	pats := []string{"burst", "half", "full"}
+	outs := []int{0, 1, 2}
+	triesSet := []int{1, 3}
+	fails := []int{0, 1, 2}
 	if w.Thorough() {
-		ns = []int{0, 1, 2, 3, 4, 5, 6, 8}
+		ns = []int{0, 1, 2, 3, 4, 5, 6, 8, 10, 12}
+		lims = append(append([]c20Lim(nil), c20Lims...), c20LimsMore...)
+		pats = []string{"burst", "quarter", "half", "full", "double"}
+		outs = []int{0, 1, 2, 3}
+		triesSet = []int{1, 2, 3}
+		fails = []int{0, 1, 2, 3, 4}
 	}
-	for _, lim := range c20Lims {
+	for _, lim := range lims {
 		for _, wait := range []string{"f", "t"} {
 			for _, n := range ns {
 				for _, srcs := range []int{1, 3} {
 					if n < 2 && srcs == 3 {
 						continue
 					}
-					for _, pat := range []string{"burst", "half", "full"} {
+					for _, pat := range pats {
 						if n < 2 && pat != "burst" {
 							continue
 						}
-						for _, out := range []int{0, 1, 2} {
+						for _, out := range outs {
 							rls := []string{"default"}
 							if out > 0 {
 								rls = []string{"default", "notfirst", "notany", "waitonretries", "nowaitfirst"}
 							}
 							for _, rl := range rls {
-								for _, tries := range []int{1, 3} {
-									if out == 0 && tries == 3 {
+								for _, tries := range triesSet {
+									if out == 0 && tries != 1 {
 										continue
 									}
-									for _, fail := range []int{0, 1, 2} {
+									for _, fail := range fails {
 										if !w.Thorough() && fail != 0 && (pat == "full" || srcs == 3) {
 											continue
 										}
